@@ -7,6 +7,7 @@ CONSTANTS
   Limits = {0, 1, 2, 3}
   MaxDepth = 7
   EmitCases = TRUE
+  Hows = {"respond", "reset", "clientClose", "serverClose"}
   Dev = {}
 INIT Init
 NEXT NextGuard
